@@ -315,8 +315,6 @@ end UI
 namespace II
 open KD
 
-/-- `BInt::NEG_ONE` -/
-def negOne (w n : Nat) : List Nat := allOnes w n
 
 /-- `BInt::div_rem_unchecked` -/
 def divRemUnchecked (dbg : Bool) (w : Nat) (a b : List Nat) : Outcome (List Nat × List Nat) :=
